@@ -51,3 +51,7 @@ VARIANTS = [
 VARIANTS += [
     M('C02', 'rex-list-as-one-alternation', E(PC, "        rexes = [re.compile(r, RE_FLAGS) for r in rexes]", "        rexes = [re.compile('|'.join('(?:%s)' % r for r in rexes), RE_FLAGS)]"), rule='C02-SEM', key='each-expression'),
 ]
+
+VARIANTS += [
+    M('C02', 'revert-fix-iteritems', E(PC, "        return all(type(v) is bool for i, v in nn.items())", "        return all(type(v) is bool for i, v in nn.iteritems())"), rule='C02-IEF', key='DENYAPI:iteritems'),
+]
